@@ -49,8 +49,40 @@ def _turn_case(rng, fam):
             "obs": [{"l": "XI", "p": 0}, {"l": "YZ", "p": 0}, {"l": "XX", "p": 0}], "idle": [], "part": [0, 1]}
 
 
+def _descending_case(rng, gate):
+    """a cut gate that is not symmetric under exchange of its operands, applied with the higher qubit first, marked through cut_gates
+    (unseparated form, or automatic labels)"""
+    nq = 3
+    instrs = [{"name": "ry", "qubits": [q], "params": [0.4 + 0.5 * q]} for q in range(nq)]
+    hi = rng.choice([1, 2])
+    g = {"name": gate[0], "qubits": [hi, 0]}
+    if gate[1] is not None:
+        g["params"] = list(gate[1])
+    instrs += [g, workflow.gen.rand_1q(rng, 0), workflow.gen.rand_1q(rng, hi), {"name": "cx", "qubits": [1, 2]}]
+    form = rng.choice(["single", "dict"])
+    return {"nq": nq, "qregs": [nq], "instrs": instrs, "labels": None if form == "dict" else [0, 1, 1],
+            "pool_idx": rng.sample(range(len(workflow.gen.LABEL_POOL)), 2), "obs": [{"l": "ZZZ", "p": 0}, {"l": "XIY", "p": 0}, {"l": "ZXI", "p": 0}],
+            "idle": [], "part": [0, 1, 1], "form": form}
+
+
 def cases(rng, tier):
     N = 60 if tier == "quick" else 700
+    asym = [("cx", None), ("cy", None), ("ch", None), ("ecr", None), ("dcx", None), ("csx", None), ("crx", [0.8]), ("cry", [1.3]),
+            ("crz", [2.1]), ("unitary", [5, 2]), ("rzx", [0.9])]
+    # three weak cuts: most joint maps have probability between 1e-14 and 1e-8; dropping them shifts the values by several 1e-7
+    for sgn in ((1, 1, 1), (1, -1, 1)) if tier == "quick" else ((1, 1, 1), (1, -1, 1), (-1, -1, 1), (1, 1, -1)):
+        fams = rng.sample(["rzz", "rxx", "ryy"], 3)
+        instrs = [{"name": "ry", "qubits": [0], "params": [0.7]}, {"name": "ry", "qubits": [1], "params": [1.1]}, {"name": "h", "qubits": [1]}]
+        for f_, s_ in zip(fams, sgn):
+            instrs.append({"name": f_, "qubits": [0, 1], "params": [s_ * 0.004 + (0 if rng.random() < 0.5 else 3.141592653589793)]})
+            instrs.append(workflow.gen.rand_1q(rng, rng.randrange(2)))
+        yield ("roundtrip", {"nq": 2, "qregs": [2], "instrs": instrs, "labels": [0, 1], "pool_idx": rng.sample(range(len(workflow.gen.LABEL_POOL)), 2),
+                             "obs": [{"l": "ZZ", "p": 0}, {"l": "XY", "p": 0}, {"l": "ZI", "p": 0}], "idle": [], "part": [0, 1], "form": "dict",
+                             "N": None, "seed": 0})
+    for gate in (rng.sample(asym, 4) if tier == "quick" else asym):
+        p = _descending_case(rng, gate)
+        p.update(N=None, seed=0)
+        yield ("roundtrip", p)
     for fam in ("crx", "cry", "crz", "cp"):
         p = _turn_case(rng, fam)
         p.update(form="dict", N=None, seed=0)
